@@ -72,6 +72,16 @@ Theorem C07_init_not_expired :
   exists g, p_sgn p' = Some g /\ expired (gc_expires g) (gc_updated g) = false.
 Proof. exact init_not_expired. Qed.
 
+(* the second sentence of the property for an ERROR answer is refuted (open finding
+   `late-error-answer-booked-on-current-batch`): the error request names no batch, so a slow honest
+   participant's error answer to a finished batch is booked on the batch being signed; t correct
+   answers to that batch then collect nothing, while the same answers without the stray error
+   answer collect it *)
+Theorem C07_late_error_answer_refuted :
+  collected 1000 (mkd st_idle ex_ready) [ex_start41; (ev_sgn_error, RSigError 2 (Some 9%N) 96); ex_good 41%N 2; ex_good 41%N 0] = [] /\
+  collected 1000 (mkd st_idle ex_ready) [ex_start41; ex_good 41%N 2; ex_good 41%N 0] = [41%N].
+Proof. exact late_error_answer_blocks_the_batch. Qed.
+
 (* ---- node level: from "collected" to "stored on every node" ---- *)
 Require Import Node.Types Node.Process Node.Reconstructed.
 Local Open Scope string_scope.
